@@ -190,7 +190,7 @@ def structures(pe, content, mag, tagged=None):
     out['Obs'] = mk(0)
     for n in (1, 2, 3):
         out['list%d' % n] = [mk(i) for i in range(n)]
-    for shape in ((2,), (2, 2), (1, 2, 2)):
+    for shape in ((), (1,), (2,), (2, 2), (1, 2, 2), (3, 1), (2, 1, 2, 1)):
         arr = np.empty(shape, dtype=object)
         for j, i in enumerate(np.ndindex(shape)):
             arr[i] = mk(j)
@@ -458,6 +458,12 @@ def run_dict(pe, acc, case, d):
               'none': None, 'flag': True, 'numkeys': {1: 'int key', 2.5: make(pe, content, 8)}}
         if content != 'purecov':
             od['c'] = pe.Corr([make(pe, content, t) if t else None for t in range(3)])
+        # more than ten (and more than a hundred) structures: placeholders with several digits, sitting directly in lists,
+        # as dictionary values and below both
+        od['many'] = [[make(pe, content, 30 + i), np.array([make(pe, content, 60 + i)], dtype=object)] for i in range(7)]
+        od['manyd'] = {'k%d' % i: make(pe, content, 90 + i) for i in range(12)}
+        if content == 'single':
+            od['hundred'] = [['s%d' % i, make(pe, content, 200 + i)] for i in range(105)]
         for gz in (True, False):
             for indent in (1, 0):
                 fn = os.path.join(d, 'dict_%s' % content)
